@@ -133,6 +133,11 @@ where
                 .context("Failed to write to temp file")?;
         }
     }
+    // Wait for the last write to reach the temp file before it is read back.
+    temp_file
+        .flush()
+        .await
+        .context("Failed to write to temp file")?;
     Ok((
         source_hasher.finalize().to_vec(),
         archive_chunks,
